@@ -3,8 +3,8 @@ package main
 // Random configuration / world / event generation for the `hist` stream.
 
 import (
-	"strings"
 	"fmt"
+	"strings"
 	"time"
 
 	"github.com/atlassian/escalator/pkg/controller"
@@ -400,6 +400,19 @@ func (h *Hist) randomEvent() string {
 		h.shift(cool + time.Second)
 		return "advance-past-cooldown"
 	}
+	if focus == "up" && slowOK && !(o.MinNodes == 0 && o.MaxNodes == 0) && r.chance(22) {
+		// somebody lowers the cloud group's maximum under the configured max_nodes
+		g := h.aws.asgs[o.CloudProviderGroupName]
+		g.Max = int64(o.MaxNodes - r.rng(1, 3))
+		if g.Max < g.Desired {
+			g.Max = g.Desired
+		}
+		if g.Max < g.Min+1 {
+			g.Max = g.Min + 1
+		}
+		h.nextRefreshFault = r.chance(70) // ... and the very next refresh fails: the provider must be rebuilt to learn about it
+		return "asg-max-lowered"
+	}
 	if focus == "up" && r.chance(35) {
 		ev = r.pickI(4, 4, 5, 16, 13, 14) // tainted nodes to reuse, force-tainted nodes to remove first, ties, deliveries, the cloud maximum moves
 	}
@@ -766,6 +779,10 @@ func (h *Hist) runHistory(scans int) (bool, string) {
 				faults[0] = true // the refresh itself (costs 5 s of real sleep per retry)
 			}
 		}
+		if slowOK && h.nextRefreshFault {
+			faults[0] = true
+		}
+		h.nextRefreshFault = false
 		if slowOK && (focus == "cooldown" || focus == "up" || focus == "dry" || focus == "churn") && h.r.chance(35) {
 			faults[0] = true // credentials refresh fails inside (or outside) a cool-down: the provider is rebuilt
 		}
